@@ -188,20 +188,45 @@ class SimExecutor:
         self.max_running = 0
         self.executed = []              # unit ids, in execution order
         self.on_violation = None
+        self.broken = False
+        self.pending = []
 
     def submit(self, fn, *args, **kwargs):
+        from concurrent.futures.process import BrokenProcessPool, _RemoteTraceback
+        import traceback as _tb
         k = self.ak.k
+        if self.broken:
+            raise BrokenProcessPool("A child process terminated abruptly, the process pool is not usable anymore")
         cf = _cf.Future()
         unit = fn.args[0] if hasattr(fn, "args") and fn.args else None
         self.running += 1
         self.max_running = max(self.max_running, self.running)
         dur = self.durations(unit)
+        self.pending.append(cf)
 
         def complete():
+            if cf.done():                      # already failed with the pool
+                return
             self.running -= 1
+            if cf in self.pending:
+                self.pending.remove(cf)
+            if isinstance(unit, dict) and unit.get("kills_pool"):
+                # the worker process dies: every pending future fails, the pool is unusable
+                self.broken = True
+                self.ak.k.fault("pool_process_died")
+                err = BrokenProcessPool("A process in the process pool was terminated abruptly "
+                                        "while the future was running or pending.")
+                cf.set_exception(err)
+                for other in list(self.pending):
+                    self.running -= 1
+                    other.set_exception(BrokenProcessPool(str(err)))
+                self.pending.clear()
+                return
             try:
                 res = fn(*args, **kwargs)
             except BaseException as exc:  # noqa
+                # the process pool transports the remote traceback as __cause__
+                exc.__cause__ = _RemoteTraceback("".join(_tb.format_exception(type(exc), exc, exc.__traceback__)))
                 cf.set_exception(exc)
             else:
                 cf.set_result(res)
